@@ -1,5 +1,6 @@
 import DaskModel.Model.Creation
 import DaskModel.Lemmas.CreationLemmas
+import DaskModel.Lemmas.DiagonalLemmas
 import DaskModel.Lemmas.ChunksNormalize
 /-!
 # C34 — array creation routines are chunk-invariant and equal NumPy (theorems)
@@ -100,6 +101,46 @@ theorem diag_den {α} [Inhabited α] (zero : α) (cs : List Nat) (xs : List α) 
       rw [h1] at h2; injection h2 with h2; injection h2 with h3 _; exact hb h3
     rw [if_neg this]
 
+/-- **diagonal_den** (2-d, `axis1 = 0`, `axis2 = 1`): for positive row/column chunks and any offset `k`, the loop that
+    follows the k-diagonal through the blocks terminates, every task's declared chunk length is what
+    `np.diagonal(block, k_local)` returns, and the tasks read exactly the global diagonal positions
+    `(max(0,-k) + t, max(0,k) + t)`, `t < len_kdiag`, in order. -/
+theorem diagonal_den (rch cch : List Nat) (hpr : ∀ c ∈ rch, 0 < c) (hpc : ∀ c ∈ cch, 0 < c) (k : Int) :
+    ∃ segs, diagonalPlan rch cch k = some segs ∧
+      segs.flatMap (segPoints rch cch)
+        = diagPoints (max 0 (-k)) (max 0 k) (min ((sum rch : Nat) : Int) (((sum cch : Nat) : Int) - k) - max 0 (-k)).toNat ∧
+      ∀ s ∈ segs, SegOK rch cch s := by
+  unfold diagonalPlan
+  by_cases hL : min ((sum rch : Nat) : Int) (((sum cch : Nat) : Int) - k) - max 0 (-k) ≤ 0
+  · refine ⟨[], by simp only [hL, if_true], ?_, by simp⟩
+    have : (min ((sum rch : Nat) : Int) (((sum cch : Nat) : Int) - k) - max 0 (-k)).toNat = 0 := by omega
+    simp [this, diagPoints]
+  · simp only [hL, if_false]
+    obtain ⟨r0, hr0⟩ : ∃ r0 : Nat, (r0 : Int) = max 0 (-k) := ⟨(max 0 (-k)).toNat, by omega⟩
+    obtain ⟨c0, hc0⟩ : ∃ c0 : Nat, (c0 : Int) = max 0 k := ⟨(max 0 k).toNat, by omega⟩
+    have hr0N : r0 < sum rch := by omega
+    have hc0M : c0 < sum cch := by omega
+    have e1 : (max 0 (-k)).toNat = r0 := by omega
+    have e2 : (max 0 k).toNat = c0 := by omega
+    rw [e1, e2]
+    obtain ⟨I, ro, hI⟩ := blockOf_some hr0N
+    obtain ⟨J, co, hJ⟩ := blockOf_some hc0M
+    simp only [hI, hJ]
+    obtain ⟨hbI, hleI⟩ := inBlock_of_blockOf hI hr0N
+    obtain ⟨hbJ, hleJ⟩ := inBlock_of_blockOf hJ hc0M
+    have hz : r0 < sum rch → c0 < sum cch → r0 = blockStart rch I ∨ c0 = blockStart cch J := by
+      intro _ _; omega
+    obtain ⟨segs, h1, h2, h3⟩ := diagLoop_spec rch cch hpr hpc (sum rch + sum cch) r0 c0 I J hbI hbJ hz (by omega)
+    rw [← hr0, ← hc0]
+    refine ⟨segs, h1, ?_, h3⟩
+    rw [h2]
+    congr 1
+    omega
+
+example : diagonalPlan [2, 3] [1, 2, 2] 1 = some [⟨0, 1, 0, 2⟩, ⟨1, 2, 0, 2⟩] := by decide
+example : diagonalPlan [2, 3] [1, 2, 2] (-2) = some [⟨1, 0, 0, 1⟩, ⟨1, 1, -1, 2⟩] := by decide
+example : diagonalPlan [2, 3] [1, 2] 7 = some [] := by decide
+
 /-- **tri_den**: `tri(N, M, k)[i, j] = (arange(N)[i] >= arange(-k, M-k)[j])` is NumPy's `j - k ≤ i`
     (given `arange_den` for both operands). -/
 theorem tri_den (k : Int) (i j : Nat) :
@@ -112,7 +153,7 @@ theorem tri_den (k : Int) (i j : Nat) :
 /-- **chunks_sum_shape**: the lazily reported chunks of every creation routine are
     `normalize_chunks(chunks, shape)`, hence add up to the shape (C23 `normalize_sum_nonneg`). -/
 theorem chunks_sum_shape {top shape limit autoRes r} (h : normalize top shape limit autoRes = .ok r)
-    (hne : shape ≠ []) (hauto : ∀ a, autoRes = some a → a.length = shape.length) :
+    (hne : shape ≠ []) (hauto : ∀ a, autoRes = some a → a.length = shape.length ∧ ∀ c ∈ a, c.isNeg = false) :
     r.length = shape.length ∧ ∀ i (h1 : i < r.length) (h2 : i < shape.length), isum r[i] = (shape[i] : Int) := by
   have H : AllDims DimOK r shape := by
     unfold normalize at h
@@ -124,8 +165,8 @@ theorem chunks_sum_shape {top shape limit autoRes r} (h : normalize top shape li
       split at h
       · cases autoRes with
         | none => simp at h
-        | some a => exact finalize_dims h (hauto a rfl) hne
-      · exact finalize_dims h hl hne
+        | some a => exact finalize_dims h (hauto a rfl).1 hne (hauto a rfl).2
+      · exact finalize_dims h hl hne (preNormalize_nonneg h1)
   exact ⟨H.length, fun i h1 h2 => (H.get i h1 h2).2.2⟩
 
 end Dask.C34
